@@ -15,7 +15,11 @@ import re
 from .. import tlc
 
 NAMES = {"a": "Abc", "b": "Bcd"}
-DEFS = "(Definition/Abc, (Action, Condition-variable/Va)), (Definition/Bcd, (Agent, Condition-variable/Vb))"
+DEFS = ("(Definition/Abc, (Action, Condition-variable/Va)), (Definition/Bcd, (Agent, Condition-variable/Vb)), "
+        "(Definition/Acc/#, (Acceleration/# m-per-s^2, Condition-variable/Vc))")
+# valued mode: the two process names are ONE placeholder definition with two values (each value is a name of its own)
+NAMES_V = {"a": "Acc/4.5", "b": "Acc/5.5"}
+DEFVAR_V = {"a": "vc.acc/4.5", "b": "vc.acc/5.5"}
 DEFVAR = {"a": "va.abc", "b": "vb.bcd"}      # factor column of the variable a definition carries: <variable>.<definition>
 PROC_TAGS = ["Red", "Green", "Blue", "Square", "Circle", "Triangle", "Cross", "Ellipse"]
 PLAIN_TAGS = ["Sensory-event", "Agent-action", "Data-feature", "Experiment-control"]
@@ -23,6 +27,9 @@ _G = {}
 
 
 def _variant(word, i):
+    if "/" in word:          # a valued name: only the name part changes letter case
+        w, _, v = word.partition("/")
+        return _variant(w, i) + "/" + v
     masks = [0b000, 0b111, 0b100, 0b010, 0b001, 0b110, 0b101, 0b011]
     m = masks[i % 8]
     return "".join(c.upper() if (m >> (len(word) - 1 - j)) & 1 else c.lower() for j, c in enumerate(word))
@@ -44,13 +51,15 @@ def concretise(case, rng):
     nplain = 0
     parts = {j: [] for j in range(1, len(times) + 1)}
     cv = rng.random() < 0.6      # contents carry a type variable of their own (Condition-variable/P<n>)
+    valued = rng.random() < 0.3
+    names, defvar = (NAMES_V, DEFVAR_V) if valued else (NAMES, DEFVAR)
     varof = {}                   # proc id -> factor columns it switches on
     for j, (t, al) in enumerate(zip(times, acts), 1):
         for a in al:
             pid = a["id"]
             can_delay = True
             if a["a"] == "on":
-                sp = _variant(NAMES[a["key"]], pid)
+                sp = _variant(names[a["key"]], pid)
                 if pid % 3 == 0:
                     txt = "(Def/%s, Onset)" % sp
                     tokens[pid] = "Def/" + sp
@@ -61,9 +70,9 @@ def concretise(case, rng):
                         varof.setdefault(pid, []).append("p%d" % pid)
                         tag = "%s, Condition-variable/P%d" % (tag, pid) if pid % 4 < 2 else "Condition-variable/P%d, %s" % (pid, tag)
                     txt = "(Def/%s, Onset, (%s))" % (sp, tag) if pid % 2 else "(Onset, (%s), Def/%s)" % (tag, sp)
-                varof.setdefault(pid, []).append(DEFVAR[a["key"]])
+                varof.setdefault(pid, []).append(defvar[a["key"]])
             elif a["a"] == "off":
-                sp = _variant(NAMES[a["key"]], 7 - (pid % 8))
+                sp = _variant(names[a["key"]], 7 - (pid % 8))
                 txt = "(Def/%s, Offset)" % sp
                 can_delay = False
             else:
@@ -129,6 +138,9 @@ def execute(c):
         tm.add_type("condition-variable")
         fdf2 = tm.get_factor_vectors("condition-variable")
         res["factors2"] = {} if fdf2 is None else {str(col): [int(x) for x in fdf2[col]] for col in fdf2.columns}
+        from hed.tools.analysis.hed_tag_manager import HedTagManager
+        objs = HedTagManager(em).get_hed_objs(include_context=True)
+        res["tagobjs"] = ["" if o is None else str(o) for o in objs]
         # histories on one manager: filtered views are asked for (types removed: the plain tags of this file), then the
         # manager is looked at again - what it reports for every point must be what it reported before
         types = sorted({re.split(r"[/ ]", p)[0] for ps in c["plain"].values() for p in ps}) or ["Condition-variable"]
@@ -227,6 +239,18 @@ def judge(c):
                     prob.append(("factor-%s" % ("extra" if got else "missing"),
                                  "factor %s at time point %d is %d, specification %d (active processes %s)"
                                  % (col, j, got, want, exp[j - 1]["active"])))
+                    break
+    # the tag manager's assembled annotations: one per entry, each holding what the manager lists for that entry
+    if "tagobjs" in res:
+        if len(res["tagobjs"]) != len(res["onsets"]):
+            prob.append(("tag-manager-length", "HedTagManager.get_hed_objs returns %d annotations for %d time-ordered entries"
+                         % (len(res["tagobjs"]), len(res["onsets"]))))
+        else:
+            for i, txt in enumerate(res["tagobjs"]):
+                want_i = count(res["base"][i]) + count(res["contexts"][i]) + count(res["resid"][i])
+                if count(txt) != want_i:
+                    prob.append(("tag-manager-entry", "entry %d: HedTagManager assembles %r, the manager lists base %r context %r rest %r"
+                                 % (i, txt, res["base"][i], res["contexts"][i], res["resid"][i])))
                     break
     av = res.get("after_views")
     if av:
